@@ -554,6 +554,7 @@ func genHistory(rt *rapid.T, m *model, o *op) {
 	h.Context = rapid.IntRange(0, 5).Draw(rt, "context") == 0
 	h.Scopes = o.Cond != nil && rapid.IntRange(0, 3).Draw(rt, "scopes") == 0
 	h.SelectSlice = o.Select != nil && rapid.IntRange(0, 2).Draw(rt, "selectslice") == 0
+	h.OmitComma = len(o.Omit) > 1 && rapid.IntRange(0, 2).Draw(rt, "omitcomma") == 0
 	update := false
 	switch o.Kind {
 	case "updates-struct", "updatecolumns-struct", "updates-map", "updatecolumns-map", "update", "updatecolumn":
@@ -1026,7 +1027,11 @@ func exec(db *gorm.DB, m *model, o *op) error {
 		}
 	}
 	if o.Omit != nil {
-		tx = tx.Omit(o.Omit...)
+		if o.Hist.OmitComma {
+			tx = tx.Omit(strings.Join(o.Omit, ","))
+		} else {
+			tx = tx.Omit(o.Omit...)
+		}
 	}
 	target := []clause.Column{{Name: "id"}}
 	if m.NK == 2 {
@@ -1177,6 +1182,10 @@ const ruleText = "C10: a model type built with reflect.StructOf (integer key + 3
 	"Create map/maps, Save of a slice, each create also as upsert DoNothing/UpdateAll/DoUpdates; FirstOrCreate with Assign(map|struct) on a found record, with and without an explicit zero-key Model()) with a Select/Omit form (none, list by field name or column name, '*', Omit, combinations), " +
 	"zero, non-zero and gorm.Expr values, and a model key (composite: possibly with exactly one zero member; or a slice of 2-4 key structs, Model(&[]T{..})) and/or a Where condition; the table after the write must equal, cell by cell, the table predicted by an independent " +
 	"model of the statement. non-trivial = a field with a restricting tag is given a value, a zero value is given, and the rows the write may touch are a non-empty strict subset; " +
+	"further dimensions (COVERAGE.md): Go type shapes (int/int32/uint/float32, *int64, sql.NullString, *time.Time, embedded struct value/pointer with prefix), parsed and null defaults, " +
+	"value shapes ([]*T, arrays, *map, Model(&[]*T)), Select([]string), Omit(\"a,b\"), table-qualified column names, sub-query handles and literal expressions as values, DoUpdates with literal assignments, " +
+	"clause.Returning, Statement.SetColumn from a registered callback, Session{SkipHooks}, conditions through Scopes, WithContext, a Session parent on which other chains were finished first, " +
+	"Transaction / Begin-Commit, Config SkipDefaultTransaction / PrepareStmt / CreateBatchSize, batches up to 25 rows (thorough). " +
 	"distinct = model + row keys + operation. Not generated (documentation silent): FirstOrCreate on composite keys, with Select/Omit, or with no matching row (C16), Select('*') with a slice model, updates with neither key nor condition (C09), key collisions without an OnConflict clause (C05), " +
 	"Select('*') with a separate value whose key is zero, a hook-running map update that names a tracked update-time field, a create-from-map key that names an ignored field, " +
 	"rows that propose no column, DoUpdates naming a denied column; batches mixing zero and non-zero values of a default:(expr) column (SQLite has no DEFAULT keyword in VALUES); accepted either way: rows matching only the non-zero member of a partly zero composite key (update paths), the row matching a partly zero composite key exactly under Save (updated, or rejected by the insert path), tracked time cells of created rows that a Select list / a map does not name, and the creation time under UpdateAll"
@@ -1256,7 +1265,7 @@ func analyse(m *model, o *op, selForm string) caseInfo {
 		}
 		shape := f.Kind.String()
 		if f.GoType != "" {
-			shape = f.GoType
+			shape = "go-" + f.GoType
 		}
 		ci.classes["type:"+shape] = true
 		if f.GoDefault != nil {
@@ -1315,7 +1324,7 @@ func analyse(m *model, o *op, selForm string) caseInfo {
 			name string
 		}{{h.Handle != "", "history:" + h.Handle}, {h.Decoy, "history:session-parent+decoys"}, {h.Context, "history:with-context"},
 			{h.Scopes, "history:cond-via-scopes"}, {h.SkipHooks, "history:Session{SkipHooks}"}, {h.Returning, "clause:Returning"},
-			{h.SelectSlice, "select-arg:[]string"}, {o.Form != "", "form:" + o.Form}, {o.KeysPtr, "form:model-[]*T"},
+			{h.SelectSlice, "select-arg:[]string"}, {h.OmitComma, "omit-arg:comma-string"}, {o.Form != "", "form:" + o.Form}, {o.KeysPtr, "form:model-[]*T"},
 			{o.SetCol != nil, "callback:SetColumn"}, {m.SkipDefaultTx, "config:SkipDefaultTransaction"}, {m.PrepareStmt, "config:PrepareStmt"},
 			{m.CreateBatchSize > 0, "config:CreateBatchSize"}, {len(o.Rows) > 4, "size:batch>4"}} {
 			if x.on {
